@@ -177,3 +177,10 @@ Proof.
   - pose proof (count_pp_ge is_ctor _ _ _ Hp eq_refl). lia.
   - pose proof (count_pp_ge is_bound _ _ _ Hp eq_refl). lia.
 Qed.
+
+(* the schedule compared when the start had completed before Close was called: the instance
+   is bound, Overlay.Close deletes it, nothing is left *)
+Example ctor_unheld_code :
+  exists s, orun false oinit ctor_unheld_schedule = Some s /\
+            ocloser s = OClosed /\ regs s = 0 /\ bounds s = 0 /\ readers s = 0 /\ starts s = [PGone].
+Proof. eexists. split; [vm_compute; reflexivity|]. repeat split. Qed.
